@@ -425,4 +425,3 @@ func (x *c10Logger) depth(ls []*c10Logger) int {
 	}
 	return d
 }
-
